@@ -365,6 +365,15 @@ def conformance_violations(cls, w):
                     bad.append((key, "ff-entries"))
                 else:
                     bad.append((key, kind))
+        if cls in ("Hello", "Welcome") and type(d.get("roles")) is dict:
+            table = HELLO_ROLES if cls == "Hello" else WELCOME_ROLES
+            for role, rv in d["roles"].items():
+                feats = rv.get("features") if type(rv) is dict else None
+                if role in table and type(feats) is dict:
+                    for f in table[role]:
+                        if f in feats and feats[f] is not None and type(feats[f]) is not bool:
+                            bad.append((f"roles.{role}.features", "bool"))      # a feature flag is a bool (or absent)
+                            break
         if cls in ("Unsubscribed", "Unregistered"):
             sub = "subscription" if cls == "Unsubscribed" else "registration"
             if type(d.get(sub)) is int and type(w[1]) is int and not (w[1] == 0 and d[sub] != 0):
